@@ -5,5 +5,7 @@ CONSTANTS
   TzOffsets <- TzAll
   UtcRead = TRUE
   MaxRounds = 2
+  HashSets <- HsOne
+  ShortcutChecksHashes = TRUE
 INVARIANT IncEqualsFull
 INVARIANT TimestampNotLate
